@@ -1,5 +1,10 @@
 import Driver.Common
-/-! Driver of the `kv` family (stub: no stream yet). -/
+import Driver.Kv
+/-! Driver of the `kv` family: streams kv (C23), kvflush (C22), kvtable (C24) share one protocol. -/
 
 def main (args : List String) : IO UInt32 :=
-  Drv.mainWith [] args
+  Drv.mainWith [
+    ("kv", Drv.Kv.stream),
+    ("kvflush", Drv.Kv.stream),
+    ("kvtable", Drv.Kv.stream)
+  ] args
